@@ -1,10 +1,65 @@
 import SkaModel.Core.Proto
+import SkaModel.Core.Window
 
-/-! Driver commands for the `Window` model family. One self-contained case per line. -/
+/-! Driver commands for the `Window` model family (sliding-window clause of C13). One self-contained
+case per line: `win <window: N | int> <only_labeled> <nops> op…` with
+`op = <isFit> <k> (id label)×k <weights: N | k w…>`; the output holds the model's buffers and what the
+estimator was fitted on after every call. A sample is `(row id, label)`, label `< 0` = missing. -/
 
 namespace Ska.Drv.Window
-open Ska Ska.Proto
+open Ska Ska.Proto Ska.Window
 
-def handlers : List (String × P String) := []
+abbrev Sample := Nat × Int
+abbrev Fitted := List Sample × Option (List Float)
+
+def optList {γ : Type} (p : P γ) : P (Option (List γ)) := do
+  let t ← tok
+  if t = "N" then pure none
+  else match t.toNat? with
+    | some n => do let xs ← many p n; pure (some xs)
+    | none => failure
+
+def sampleP : P Sample := do let i ← nat; let l ← int; pure (i, l)
+
+def opP : P (Op Sample Float) := do
+  let f ← bool
+  let xs ← listOf sampleP
+  let ws ← optList float
+  pure (f, xs, ws)
+
+def showSamples (l : List Sample) : String :=
+  s!"{l.length} " ++ " ".intercalate (l.map (fun t => s!"{t.1} {t.2}"))
+
+def showOptW : Option (List Float) → String
+  | none => "N"
+  | some w => s!"{w.length} {showFloats w}"
+
+def showSt (s : St Fitted Sample Float) : String :=
+  let c := match s.clf with
+    | none => "none"
+    | some (b, w) => s!"{showSamples b} sw {showOptW w}"
+  s!"buf {showSamples s.buf} sw {showOptW s.sw} clf {c}"
+
+def cmdWin : P String := do
+  let wt ← tok
+  let window : Option Nat ← (if wt = "N" then pure none else match wt.toInt? with
+    | some n => pure (some n.toNat)     -- non-positive sizes are rejected by the validation (`some 0`)
+    | none => failure)
+  let ol ← bool
+  let nops ← nat
+  let ops ← many opP nops
+  let cfg : Cfg := ⟨window, ol⟩
+  let labeled : Sample → Bool := fun t => decide (0 ≤ t.2)
+  let fitFn : List Sample → Option (List Float) → Fitted := fun b w => (b, w)
+  let rec go (s : St Fitted Sample Float) (os : List (Op Sample Float)) (acc : List String) : List String :=
+    match os with
+    | [] => acc.reverse
+    | (f, xs, ws) :: rest =>
+      let r := call cfg labeled fitFn f s xs ws
+      let st := match r.2 with | none => "ok" | some .value => "err value" | some .attr => "err attr"
+      go r.1 rest ((st ++ " " ++ showSt r.1) :: acc)
+  pure (" || ".intercalate (go St.init ops []))
+
+def handlers : List (String × P String) := [("win", cmdWin)]
 
 end Ska.Drv.Window
